@@ -421,6 +421,7 @@ func runC20(tier, replay string) int {
 	r.Sample(map[string]any{"walk": "TimelineItem", "n": maxWalk, "size": 3, "dir": "backward"})
 
 	// (c) end-to-end through the GraphQL handler
+	r.Extra("added_in_seeding_round_6", "end to end: allBugs(query: \"status:open\") listed and walked (page sizes 2, 5), an open bug closed through the served cache, listed and walked again; reference = what the served cache answers to the same query at that moment")
 	c20EndToEnd(r)
 
 	return r.Finish("direct calls of the 7 generated connection functions compared with a Relay reference model; a case is non-trivial when the list is non-empty and at least one paging argument is present; distinct = distinct (length, first, after-position, last, before-position) tuples; plus forward/backward page walks and GraphQL end-to-end walks",
